@@ -65,9 +65,11 @@ fn into_cond(expr: &Expr) -> Condition {
                     .is_not_null()
                     .into_condition()
             } else {
-                SeaExpr::col(SeaAlias::new(key))
-                    .ne(value.unwrap())
-                    .into_condition()
+                // a record without a value in the column is not equal to the value either
+                // (in SQL the comparison with NULL is neither true nor false)
+                SeaCond::any()
+                    .add(SeaExpr::col(SeaAlias::new(key)).ne(value.unwrap()))
+                    .add(SeaExpr::col(SeaAlias::new(key)).is_null())
             }
         }
         ExprOp::LT => SeaExpr::col(SeaAlias::new(key))
